@@ -1,11 +1,21 @@
 /-
-Non-vacuity of `P3R.C04.accepted_sat`: a concrete accepted trace of the two-op circuit
-`c0 := 2; s1 := c0 + c0` over ℚ (events, reads, cells as the role scan and the runner produce
-them) meets every hypothesis of the theorem.
+Witnesses for `P3R.C04.accepted_sat`.
+
+* `accepted_sat_nonvacuous` — a concrete accepted trace of the two-op circuit
+  `c0 := 2; s1 := c0 + c0` over ℚ meets every hypothesis of the theorem.
+* `unchained_accepted_not_sat` — the hypothesis `hornerChained` cannot be dropped (finding F20): for
+  the circuit `out = horner_acc_step(acc, alpha, p_at_z, p_at_x)` with public inputs
+  `acc = 5, alpha = 7, p_at_z = 11, p_at_x = 2` and the claimed `out = 9`, the trace whose cells
+  hold `w = [0, 5, 7, 11, 2, 9]` satisfies every acceptance condition (row constraints, one creator
+  per slot, balanced bus — the ALU row takes accumulator 0 at the start of a run), but no
+  assignment satisfies the op relations with these public values (`5·7 + 11 − 2 = 44 ≠ 9`).
+  `corpus/prove/f20_horner_free_acc_forged.json` replays exactly this on the real prover/verifier.
 -/
 import P3R.Props.C04Full
+import P3R.Props.C10Full
 import Mathlib.Algebra.Field.Rat
 import Mathlib.Tactic.NormNum
+import Mathlib.Tactic.IntervalCases
 open P3R P3R.C04 P3R.C09
 
 namespace P3R.Witness.C04
@@ -13,7 +23,7 @@ namespace P3R.Witness.C04
 theorem accepted_sat_nonvacuous :
     ∃ w : Nat → ℚ, Sat w (fun _ => 0) [.const 0 2, .alu .add 0 0 none 1 none] := by
   refine accepted_sat (fun _ => 0) _ [(0, .creator), (1, .creator), (0, .reader), (0, .reader)]
-    [(0, 2)] [2, 4, 2, 2] (by simp [opSlots]) rfl ?_ ?_ ?_ ?_
+    [(0, 2)] [2, 4, 2, 2] (by simp [opSlots]) rfl ?_ ?_ ?_ ?_ ?_
   · intro s; unfold nCreators; simp only [List.countP_cons, List.countP_nil]
     by_cases h0 : 0 = s <;> by_cases h1 : 1 = s <;> simp [h0, h1]
   · intro e he; simp at he; rcases he with rfl | rfl | rfl <;> simp
@@ -21,10 +31,73 @@ theorem accepted_sat_nonvacuous :
     simp only [List.zipWith, busOf, List.filterMap, interOf, readsOf, List.lookup, tupleNet, List.filter]
     by_cases h0 : 0 = s <;> by_cases h1 : 1 = s <;> by_cases hv : 2 = v <;> by_cases hv4 : 4 = v <;>
       simp [h0, h1, hv, hv4] <;> (try subst h0) <;> (try subst hv) <;> (try simp_all) <;> (try (subst h1; simp))
+  · simp [hornerChained, hornerChainedFrom]
   · simp only [rowsOk, opSlots, rowOkVals, nextPrev, List.take, List.drop, List.length]
     refine ⟨by norm_num, ?_, trivial⟩
     intro x hx
     simp [laneAdd, vget] at hx
     rw [hx]; norm_num
+
+/-- The ops of `pub acc, alpha, p_at_z, p_at_x; out = horner(acc, alpha, p_at_z, p_at_x); connect(out, pub e)`
+as compiled (slot 0: the zero constant, slots 1–4: the four inputs, slot 5: `out` = `e`). -/
+def f20Ops : List (Op ℚ) :=
+  [.const 0 0, .pub 1 0, .pub 2 1, .pub 3 2, .pub 4 3, .pub 5 4, .alu .horner 4 2 (some 3) 5 (some 1)]
+
+def f20Pub : Nat → ℚ := fun i => [5, 7, 11, 2, 9].getD i 0
+def f20W : Nat → ℚ := fun i => [0, 5, 7, 11, 2, 9].getD i 0
+def f20Evs : List (Nat × Role) :=
+  [(0, .creator), (1, .creator), (2, .creator), (3, .creator), (4, .creator), (5, .creator),
+   (5, .reader), (4, .reader), (3, .reader), (2, .reader)]
+def f20Reads : List (Nat × Nat) := [(5, 1), (4, 1), (3, 1), (2, 1)]
+
+theorem unchained_accepted_not_sat :
+    -- every acceptance condition of `accepted_sat` holds for the forged trace …
+    (f20Evs.map Prod.fst = f20Ops.flatMap opSlots) ∧
+    (∀ s, nCreators f20Evs s ≤ 1) ∧
+    (∀ e ∈ f20Evs, e.2 ≠ .skip) ∧
+    (∀ s v, tupleNet (busOf f20Reads (C10.honestCells f20W f20Evs)) s v = 0) ∧
+    rowsOk f20Pub f20Ops (f20Evs.map fun e => f20W e.1) none ∧
+    -- … the chain condition fails …
+    hornerChained f20Ops = false ∧
+    -- … and no assignment satisfies the op relations for these public values
+    ¬ ∃ w : Nat → ℚ, Sat w f20Pub f20Ops := by
+  refine ⟨by simp [f20Evs, f20Ops, opSlots], ?_, ?_, ?_, ?_, ?_, ?_⟩
+  · intro s
+    unfold nCreators f20Evs
+    simp only [List.countP_cons, List.countP_nil]
+    rcases Nat.lt_or_ge s 6 with h | h
+    · interval_cases s <;> simp
+    · have : ∀ k, k < 6 → (k == s) = false := fun k hk => by simp; omega
+      simp [this]
+  · intro e he
+    simp [f20Evs] at he
+    rcases he with rfl | rfl | rfl | rfl | rfl | rfl | rfl | rfl | rfl | rfl <;> simp
+  · apply C10.honest_bus
+    intro s
+    rw [netOf_formula]
+    unfold nCreators nReaders readsOf f20Evs f20Reads
+    simp only [List.countP_cons, List.countP_nil, List.lookup]
+    rcases Nat.lt_or_ge s 6 with h | h
+    · interval_cases s <;> simp
+    · have e1 : ∀ k, k < 6 → (k == s) = false := fun k hk => by simp; omega
+      have e2 : ∀ k, k < 6 → (s == k) = false := fun k hk => by simp; omega
+      simp [e1, e2]
+  · simp only [f20Ops, f20Evs, rowsOk, opSlots, rowOkVals, nextPrev, prevAcc, List.take, List.drop,
+      List.length, List.map, List.cons_append, List.nil_append]
+    refine ⟨?_, ?_, ?_, ?_, ?_, ?_, ?_, trivial⟩ <;> try (simp [f20W, f20Pub])
+    intro x hx
+    simp [hornerSingle, vget, f20W] at hx
+    rw [hx]; norm_num
+  · simp [hornerChained, hornerChainedFrom, zeroConsts, f20Ops]
+  · rintro ⟨w, hw⟩
+    have h1 := hw (.pub 1 0) (by simp [f20Ops])
+    have h2 := hw (.pub 2 1) (by simp [f20Ops])
+    have h3 := hw (.pub 3 2) (by simp [f20Ops])
+    have h4 := hw (.pub 4 3) (by simp [f20Ops])
+    have h5 := hw (.pub 5 4) (by simp [f20Ops])
+    have h6 := hw (.alu .horner 4 2 (some 3) 5 (some 1)) (by simp [f20Ops])
+    simp only [Op.holds, f20Pub, List.getD_cons_zero, List.getD_cons_succ] at h1 h2 h3 h4 h5 h6
+    rw [h1, h2, h3, h4, h5] at h6
+    norm_num at h6
 
 end P3R.Witness.C04
